@@ -543,7 +543,9 @@ def _retsub(m, ins):
         if fr.fp + fr.returns > sp:
             raise Panic("FRAME", "retsub executed with stack below frame")
         argstart = fr.fp - fr.args
-        rets = m.stack[sp - fr.returns : sp] if fr.returns else []
+        # go-algorand opRetSub: copy(stack[argstart:], stack[fp : fp+returns]) - the return values are the FIRST
+        # `returns` cells of the frame (indices 0..R-1), not the top of the stack
+        rets = m.stack[fr.fp : fr.fp + fr.returns] if fr.returns else []
         del m.stack[argstart:]
         m.stack.extend(rets)
     if m.trace_on:
